@@ -63,6 +63,9 @@ def selftest():
 
 def generate(rnd, tier):
     case = c01.generate(rnd, tier)
+    # "timeout configured": also the smallest budgets (0 and 1 second), which make TimeoutError histories common
+    r = rnd.randint(0, 9)
+    case["timeout"] = 0 if r == 0 else 1 if r in (1, 2) else c01.SOLVER_TIMEOUT
     if chance(rnd, 0.3):
         # operator coverage: replace the constraint by  Q <T> v in start: atom(op)
         g = case["grammar"] if not case.get("start_symbol") else c01.restrict_grammar(case["grammar"], case["start_symbol"])
@@ -92,6 +95,7 @@ def generate(rnd, tier):
 
 def judge(case):
     labels = ["template:" + case["template"].split("(")[0]] + ["set:%s" % k for k in sorted(case["settings"])]
+    labels.append("timeout_seconds:%s" % case.get("timeout", c01.SOLVER_TIMEOUT))
     if case.get("formula") is None:
         # raw text: give run_config a formula-less case
         import types
